@@ -114,6 +114,30 @@ func loadPool() ([]poolKey, error) {
 				add("circl-test-2048-safe", k)
 			}
 		}
+		// the same primes with other public exponents (3, 17, 257 are all accepted by crypto/rsa):
+		// d = e^-1 mod lcm(p-1, q-1), CRT values from crypto/rsa's Precompute, checked by Validate
+		base := append([]poolKey{}, pool...)
+		for _, bk := range base {
+			switch bk.name {
+			case "rsa-1024-0", "rsa-1025-0", "rsa-2048-0", "rsa-1024-safe-0", "rsa-2049-safe-0":
+			default:
+				continue
+			}
+			one := big.NewInt(1)
+			p1 := new(big.Int).Sub(bk.key.Primes[0], one)
+			q1 := new(big.Int).Sub(bk.key.Primes[1], one)
+			lambda := new(big.Int).Mul(p1, q1)
+			lambda.Div(lambda, new(big.Int).GCD(nil, nil, p1, q1))
+			for _, e := range []int{3, 17, 257} {
+				d := new(big.Int).ModInverse(big.NewInt(int64(e)), lambda)
+				if d == nil {
+					continue // e divides p-1 or q-1 for this key
+				}
+				k := &rsa.PrivateKey{PublicKey: rsa.PublicKey{N: bk.key.N, E: e}, D: d, Primes: []*big.Int{bk.key.Primes[0], bk.key.Primes[1]}}
+				k.Precompute()
+				add(fmt.Sprintf("%s-e%d", bk.name, e), k)
+			}
+		}
 		if len(pool) == 0 && poolErr == nil {
 			poolErr = fmt.Errorf("no keys in %s", dir)
 		}
@@ -155,6 +179,9 @@ func drawKey(t *rapid.T, ks []poolKey, safeOnly bool) poolKey {
 
 func keyClass(k poolKey) string {
 	s := fmt.Sprintf("key-bits=%d", k.bits)
+	if k.key.E != 65537 {
+		s = fmt.Sprintf("key-e=%d,bits=%d", k.key.E, k.bits)
+	}
 	if (k.bits-1)%8 == 0 {
 		s += "(emBits%8==0)"
 	}
